@@ -617,6 +617,12 @@ func adjustAdaptationSetForTimelineNr(se segEntries, as *m.AdaptationSetType) er
 }
 
 func adjustAdaptationSetForSegmentNumber(cfg *ResponseConfig, a *asset, as *m.AdaptationSetType) error {
+	if st := as.SegmentTemplate; st.Duration != nil && as.ContentType == "audio" && len(a.refRep.Segments) > 0 {
+		// Audio segments follow the reference segments: a VoD duration that differs from theirs is recalculated.
+		if int(*st.Duration)*a.refRep.MediaTimescale*len(a.refRep.Segments) != a.refRep.duration()*int(st.GetTimescale()) {
+			st.Duration = nil
+		}
+	}
 	if as.SegmentTemplate.Duration == nil {
 		r0 := as.Representations[0]
 		rep0 := a.Reps[r0.Id]
